@@ -270,22 +270,59 @@ def status_reports(run, F, E, rule='C08.h'):
     from lint import symeval
     from lint.symeval import Sym, ObjRef
 
-    def mk():
+    def mk(asm=None):
         pd = ObjRef({'tasksSuccesses': ObjRef({}, ['_storage'], 'succ'), 'tasksFailures': ObjRef({}, ['_storage'], 'fail')}, [])
         core = ObjRef({'planData': pd, 'logger': 0, 'registry': ObjRef({'active': Sym('active'), 'requested': Sym('requested')}, [])}, [])
-        ev = symeval.Eval(F, {'_taskStatus': ObjRef({'result': Sym('r')}, []), '_core': core, '_originId': Sym('origin')}, [])
+        ev = symeval.Eval(F, {'_taskStatus': ObjRef({'result': Sym('r')}, []), '_core': core, '_originId': Sym('origin')}, [], asm)
         ev.primitive = lambda g, obj, args: g.tkey == 'ffsm2::detail::BitArrayT'
         return ev
+
+    def states_of(fn):
+        """number of states of the machine this control belongs to: the capacity of its per-state bit arrays"""
+        for name, rec in F.rec_by_name.items():
+            if name.startswith('ffsm2::detail::PlanDataT<') and (fn.cls or '').split('ArgsT<')[-1][:60] == name.split('ArgsT<')[-1][:60]:
+                for f in rec.get('fields', []):
+                    if f['n'] == 'tasksSuccesses':
+                        return (F.rec_by_name.get(f['ty']) or {}).get('consts', {}).get('CAPACITY')
+        return None
+
+    def in_contract(dec, n_states):
+        """is this combination of decisions possible for a *valid* reported id (0 <= id < number of states)? A path taken only for
+        ids >= the number of states (a defensive range check) is outside the precondition of the report"""
+        for (o, x, y), v in dec.items():
+            if x in (Sym('id'), Sym('origin')) and isinstance(y, int):
+                if n_states is None:
+                    return None
+                lo, hi = 0, n_states - 1
+                holds_all = {'<': hi < y, '<=': hi <= y, '>': lo > y, '>=': lo >= y, '!=': not (lo <= y <= hi), '==': False}.get(o)
+                holds_none = {'<': lo >= y, '<=': lo > y, '>': hi <= y, '>=': hi < y, '==': not (lo <= y <= hi), '!=': False}.get(o)
+                if v and holds_none:
+                    return False
+                if (not v) and holds_all:
+                    return False
+        return True
     for tk in ('FullControlBaseT', 'R_'):
         for m, bits, res in (('succeed', 'tasksSuccesses', 1), ('fail', 'tasksFailures', 2)):
             for fn in F.find(tk, m):
-                ev = mk()
                 try:
-                    sm = ev.run(fn, [Sym('id')] if fn.params else [])
+                    paths = symeval.explore(mk, fn, [Sym('id')] if fn.params else [], limit=16)
                 except symeval.Refuse as ex:
                     raise AnalysisBroken('%s::%s is outside the offset-domain fragment: %s' % (tk, m, ex))
+                n_states = states_of(fn)
+                feasible = []
+                for dec, sm_ in paths:
+                    ic = in_contract(dec, n_states)
+                    if ic is None:
+                        raise AnalysisBroken('%s::%s branches on the reported id and the number of states of its machine is not known' % (tk, m))
+                    if ic:
+                        feasible.append((dec, sm_))
+                if not feasible:
+                    raise AnalysisBroken('%s::%s has no path for a valid id' % (tk, m))
+                # every path a valid id can take must do the same, complete report
+                sm = feasible[0][1]
                 evs = sm.events
-                ok = len(evs) == 1 and evs[0][0] == 'BitArrayT::set' and evs[0][1].endswith('planData.' + bits) and len(evs[0][2]) == 1 and not sm.stores
+                ok = all(p_[1].events == evs and p_[1].fields['_taskStatus'].fields.get('result') == sm.fields['_taskStatus'].fields.get('result') for p_ in feasible)
+                ok = ok and len(evs) == 1 and evs[0][0] == 'BitArrayT::set' and evs[0][1].endswith('planData.' + bits) and len(evs[0][2]) == 1 and not sm.stores
                 if ok:
                     a = evs[0][2][0]
                     if fn.params:
@@ -392,6 +429,13 @@ def run(run):
             c2[0] += 1
             c2[1] += 1 if o['ok'] else 0
     run.rule_counts = {k: v for k, v in run.rule_counts.items() if v[0] > 0}
+    # status reports on machines whose task capacity differs from their number of states (witness w_limit: capacities 1, 2, 8, 254 on
+    # three states): a report for a valid state id must not depend on the task capacity
+    for v in facts.variants(run.tier):
+        F = facts.load('w_limit', 'P', v)
+        run.guard('status reports', status_reports, run, F, effects.Effects(F))
+        facts.drop(F)
+        cfgmod.clear_cache()
     run.guard('report', static_units.report, run, 'C08.d', 'taskstatus')
     run.floor('C08.a', 10)
     run.floor('C08.j', 20)
